@@ -487,6 +487,14 @@ func (tr *Tr) loopMods(fr *Frame, li *loopInfo) map[string]modInfo {
 					addMod(out, e.counter, "", true)
 				}
 			}
+			// a callback invocation inside an iterating function: arbitrary effects, and the invocation log grows
+			if c, ok := in.(*ssa.Call); ok && tr.cbParam != nil && c.Call.Value == tr.cbParam {
+				for n, srt := range tr.g.heapRegistry() {
+					addMod(out, n, srt, true)
+				}
+				addMod(out, cbN, "", true)
+				addMod(out, cbID, "(Array Int Int)", true)
+			}
 			// closures invoked in the loop may write captured frame-local cells
 			if c, ok := in.(*ssa.Call); ok {
 				var fv *FnV
